@@ -14,6 +14,8 @@ for name in names:
     prop = meta["property"]
     if meta.get("obsolete"):
         rows.append((name, prop, "obsolete", meta["obsolete"][:160])); continue
+    if meta.get("outside_statement"):
+        rows.append((name, prop, "outside the statement", meta["outside_statement"][:200])); continue
     props = [prop] + meta.get("also_check", [])
     assert subprocess.run("git -C /repo status --porcelain", shell=True, capture_output=True, text=True).stdout == "", "/repo not clean"
     if subprocess.run(["git", "-C", "/repo", "apply", os.path.join(d, "patch.diff")]).returncode != 0:
